@@ -19,7 +19,7 @@ g - f1 - f2 = const <= 0, in each case after dropping unsigned atoms with negati
 Everything the engine cannot prove is 'not decided'; only unproven goals whose index derives from INPUT are candidates for a report.
 """
 import re
-from .facts import op_local, op_const
+from .facts import op_local, op_const, strip_regions
 
 UNSIGNED = re.compile(r"^(u8|u16|u32|u64|u128|usize)$")
 INT = re.compile(r"^(u8|u16|u32|u64|u128|usize|i8|i16|i32|i64|i128|isize)$")
@@ -42,6 +42,26 @@ FROM_ELEM = re.compile(r"\bvec::from_elem$")
 PAYLOAD_KEEP = re.compile(r"\bOption::<T>::(ok_or|ok_or_else|copied|cloned|filter|or|or_else|take)$|\bResult::<T, E>::(map_err|ok|or|or_else|inspect_err)$")
 GET_CALL = re.compile(r"core::slice::<impl \[T\]>::(get|get_mut)$|\bVec::<T, A>::get$")
 FIND_CALL = re.compile(r"core::str::<impl str>::(find|rfind)$|memchr::memchr$")
+# raw pointers into byte slices and the x86 vector loads / stores that dereference them (C09.R2)
+PTR_OF = re.compile(r"core::slice::<impl \[T\]>::as_(mut_)?ptr$|\bVec::<T, A>::as_(mut_)?ptr$")
+PTR_ADD = re.compile(r"core::ptr::(const|mut)_ptr::<impl \*(const|mut) T>::add$")
+PTR_CAST = re.compile(r"core::ptr::(const|mut)_ptr::<impl \*(const|mut) T>::(cast|cast_mut|cast_const)$")
+VEC_MEM = re.compile(r"core::core_arch::x86(_64)?::\w+::(_mm(\d*)_(mask_)?(loadu?|storeu?|lddqu|stream|stream_load)_(\w+))$")
+
+
+def vec_mem_width(name):
+    """bytes touched by an x86 load/store intrinsic, None when this is not one"""
+    m = VEC_MEM.search(name)
+    if not m:
+        return None
+    full, bits, suffix = m.group(2), m.group(3), m.group(6)
+    w = {"": 16, "256": 32, "512": 64}.get(bits)
+    for suf, n in (("si64", 8), ("si32", 4), ("si16", 2), ("ss", 4), ("sd", 8)):
+        if suffix == suf:
+            w = n
+    return w
+
+
 INPUT_CALL = re.compile(r"core::str::<impl str>::parse$|::from_str_radix$|\bFromStr>?::from_str$|::from_(be|le|ne)_bytes$|\bReadBytesExt>?::read_\w+$|BinReaderExt>?::read_\w+$|\bBinRead>?::read\w*$|::read_(u|i)\d+\w*$|::get_(u|i)\d+\w*$|\bfs::Metadata::len$")
 
 
@@ -868,6 +888,31 @@ class Analysis:
         lendef = None
         newfacts = []
         a0 = args[0] if args else None
+        ptrinfo = None
+        a0l = a0["p"][0] if a0 is not None and a0["k"] in ("cp", "mv") and len(a0["p"]) == 1 else None
+        if PTR_OF.search(name) and a0 is not None:
+            if re.match(r"^&(mut )?(\[u8\]|\[u8; \d+\]|alloc::vec::Vec<u8>)$", strip_regions(at[0]) if at else ""):
+                va_ = self.value_atom(st, a0)
+                if va_ is not None:
+                    ptrinfo = (Lin.atom(va_), Lin(0))
+        elif PTR_ADD.search(name) and len(args) == 2 and a0l is not None:
+            pb_, po_ = st.env.get((a0l, "pb")), st.env.get((a0l, "po"))
+            n_ = self.operand(st, args[1], bb, "t")
+            if pb_ is not None and po_ is not None and n_ is not None and re.match(r"^\*(const|mut) u8$", at[0] if at else ""):
+                ptrinfo = (pb_, po_.add(n_))
+        elif PTR_CAST.search(name) and a0l is not None:
+            pb_, po_ = st.env.get((a0l, "pb")), st.env.get((a0l, "po"))
+            if pb_ is not None and po_ is not None:
+                ptrinfo = (pb_, po_)
+        elif vec_mem_width(name) is not None and a0 is not None:
+            w_ = vec_mem_width(name)
+            pb_, po_ = (st.env.get((a0l, "pb")), st.env.get((a0l, "po"))) if a0l is not None else (None, None)
+            what = "%s: %d bytes through a raw pointer" % (name.split("::")[-1], w_)
+            ln_ = self.len_of(st, pb_.single()) if pb_ is not None and pb_.single() is not None else None
+            if ln_ is not None and po_ is not None:
+                self.sink(st, bb, "vecmem", what, [po_.addc(w_).sub(ln_)], [po_], loc)
+            else:
+                self.sink(st, bb, "vecmem", what, [None], [], loc)
         if LEN_CALL.search(name) and a0 is not None:
             val = self.len_of(st, self.value_atom(st, a0))
         elif EMPTY_CALL.search(name) and a0 is not None:
@@ -1219,6 +1264,8 @@ class Analysis:
                 self.zero_reads[bb] = loc
         if d is not None:
             self.kill(st, d)
+            if ptrinfo is not None:
+                st.env[(d, "pb")], st.env[(d, "po")] = ptrinfo
             if vec_len is not None:
                 st.lendef[("vec", d, st.ver.get(d, 0))] = vec_len
             if val is None and payload is None and cmpv is None and INT.match(self.ty(d)):
